@@ -251,3 +251,70 @@ def count_mutations(kind, value_kind, scratch):
         return (res or {}).get('mutations', 0), (res or {}).get('events', [])
     finally:
         shutil.rmtree(root, ignore_errors=True)
+
+
+def run_index_levels(seed=0):
+    """several index folders (`CacheToDisk(index=[local, shared], ...)`): an entry written by a process that knows only the shared folder,
+    read by one that lists both, then its blob (or its index file) is lost: the entry counts as absent - it is recomputed ONCE, stored
+    again, and every later process reads it from the cache (C12 recovery), in either order of the folders"""
+    import itertools
+    from pathlib import Path
+    paths.use_repo()
+    from tarn import DiskDict, HashKeyStorage
+    from tarn.config import StorageConfig, init_storage
+    from connectome import CacheToDisk, Transform
+    from connectome.serializers import JsonSerializer
+    from .sym import SymWorld
+    os.makedirs(paths.SCRATCH, exist_ok=True)
+    problems, runs = [], 0
+    for order, lose, writer in itertools.product(['local-first', 'shared-first'], ['blob', 'index-shared', 'index-all'], ['shared', 'both']):
+        tmp = Path(tempfile.mkdtemp(prefix='cv-levels-', dir=paths.SCRATCH))
+        try:
+            local, shared, storage = tmp / 'index-local', tmp / 'index-shared', tmp / 'storage'
+            for folder in (local, shared, storage):
+                init_storage(StorageConfig(hash='sha256', levels=[1, 31]), folder)
+            world = SymWorld()
+            world.consts['IL.x'] = [3, 30, 'payload']
+            fn = world.fn('IL.x', params=['x'])
+            both = [local, shared] if order == 'local-first' else [shared, local]
+
+            def run(index):
+                cache = CacheToDisk(index, HashKeyStorage(DiskDict(storage)), JsonSerializer(), 'x')
+                mark = world.mark()
+                v = (Transform(x=fn) >> cache).x(3)
+                return v, len(world.since(mark))
+
+            def blobs():
+                return [f for f in storage.glob('*/*') if f.is_file() and f.parent.name not in ('tools', '.tmp')]
+            label = f'index folders {order}, written through {writer}, lost: {lose}'
+            v, n = run(shared if writer == 'shared' else both)
+            v2, n2 = run(both)
+            runs += 2
+            if n != 1 or n2 != 0 or list(v2) != [3, 30, 'payload']:
+                problems.append({'msg': f'{label}: the entry written by the first process was not served to the second ({n}, {n2} computations)'})
+                continue
+            victims = blobs() if lose == "blob" else \
+                [f for d_ in ([shared] if lose == 'index-shared' else [shared, local]) for f in d_.glob('*/*') if f.is_file() and f.parent.name not in ('tools', '.tmp')]
+            for f in victims:
+                os.chmod(f, 0o777)
+                f.unlink()
+            hist = []
+            for _ in range(4):
+                try:
+                    v3, n3 = run(both)
+                except Exception as e:
+                    problems.append({'msg': f'{label}: a later process raised {type(e).__name__}: {str(e)[:100]}'})
+                    hist = None
+                    break
+                runs += 1
+                if list(v3) != [3, 30, 'payload']:
+                    problems.append({'msg': f'{label}: a later process returned {v3!r}'})
+                hist.append(n3)
+            if hist is None:
+                continue
+            if sum(hist) > 1 or (hist and hist[0] > 1):
+                problems.append({'msg': f'{label}: computations in the four processes after the loss: {hist} - the entry must be recomputed at most once, '
+                                        f'stored again and then read from the cache ({len(blobs())} blob(s) in the storage)'})
+        finally:
+            shutil.rmtree(tmp, ignore_errors=True)
+    return runs, problems
